@@ -698,6 +698,11 @@ def check(prog, rep):
     for modname, fn in (('hillshade', 'hillshade'), ('slope', 'slope'), ('aspect', 'aspect'), ('curvature', 'curvature')):
         check_sentinels(prog, rep, prog.module(modname), [fn], rule='L6-sentinel')
     check_summarize(prog, rep)
+    # the public wrappers are glue around the dispatch: rasters in as given, backend result out as it is
+    from ..sharedrules import check_dispatch_passthrough
+    for modname, fn in (('slope', 'slope'), ('aspect', 'aspect'), ('curvature', 'curvature')):
+        check_dispatch_passthrough(prog, rep, 'L9-pass', prog.func(modname, fn))
+    rep.floor('L9-pass', 6)
     rep.floor('L8-dask', 4)
     rep.floor('L1-loops', 3)
     rep.floor('L1-footprint', 3)
